@@ -695,6 +695,12 @@ class Extract:
                     continue
             if n.get("expr") is not None:
                 e = n["expr"]
+                if e.get("k") in ("for", "while", "loop"):
+                    inner = []
+                    self._rf(e["body"], TRUE, dict(env), inner)
+                    if inner:
+                        acc.append(f_and(cur, self.atom("OPQ(loop:%s)" % canon_or(inner))))
+                    return FALSE     # a loop in tail position has no boolean value; its early returns are in acc
                 if e.get("k") == "ret":
                     acc.append(f_and(cur, self.cond(e.get("e"), env)))
                     return None
